@@ -269,6 +269,7 @@ def check_rotation(case, ctx):
             a = (-ax[0]) % 360.0 + 360.0 * (case["amult"] % 3 - 1)
             ctx.label("axis-relabelled-to-north")
     newd = (dirs + a) % 360.0
+    newd[newd >= 360.0] = 0.0  # the float remainder of a tiny negative number is 360.0 itself; labels stay in [0, 360)
     if len(set(newd.tolist())) != len(newd):
         ctx.label("relabel-collision(skipped)")
         return
